@@ -30,6 +30,7 @@ Definition check (c : case) : bool :=
   match c with
   | CReduce vt raw items reduced cs assigns =>
       input_ok vt raw items && valid_cons (hvars items) cs
+      && admissible items cs && (length cs <=? excess items)%nat
       && hpoly_eqb (reduce_with cs items) reduced
       && all_degree_le2 reduced && terms_nodup reduced
       && forallb (fun asg => let a := sample_of_list asg in
@@ -38,6 +39,7 @@ Definition check (c : case) : bool :=
       let cons3s := map drop_aux cs in
       let red := reduce_with cons3s items in
       input_ok vt raw items && all_degree_le2 red
+      && admissible items cons3s && (length cons3s <=? excess items)%nat
       && match vt with
          | SPIN => valid_cons4 items cs && poly_coeff_eqb n (mq_spin s cs red) (obs_poly bqm)
          | _ => valid_cons (hvars items) cons3s && poly_coeff_eqb n (mq_binary s cons3s red) (obs_poly bqm)
@@ -45,6 +47,7 @@ Definition check (c : case) : bool :=
   | CCqm vt raw items cs n obj constraints =>
       let red := reduce_with cs items in
       input_ok vt raw items && valid_cons (hvars items) cs && all_degree_le2 red
+      && admissible items cs && (length cs <=? excess items)%nat
       && poly_coeff_eqb n (poly_of_hpoly red) (obs_poly obj)
       && forallb2 (fun c o => let '(ob, is_eq, rhs) := o in
                      is_eq && Qc_eqb rhs 0 && poly_coeff_eqb n (product_constraint_poly c) (obs_poly ob))
